@@ -474,15 +474,16 @@ func FullName(s Schema, enclosingNS string) string {
 func validate(s Schema, names map[string]int, ns string) error {
 	switch s.Kind {
 	case "record", "enum", "fixed":
-		if s.Name == "" {
-			return fmt.Errorf("%s without a name", s.Kind)
-		}
-		full := FullName(s, ns)
-		names[full]++
-		if i := strings.LastIndex(full, "."); i >= 0 {
-			ns = full[:i]
-		} else {
-			ns = ""
+		// Anonymous Go structs give records without a name; the properties do
+		// not speak about that, so a nameless type simply is not a named type.
+		if s.Name != "" {
+			full := FullName(s, ns)
+			names[full]++
+			if i := strings.LastIndex(full, "."); i >= 0 {
+				ns = full[:i]
+			} else {
+				ns = ""
+			}
 		}
 	}
 	switch s.Kind {
@@ -508,7 +509,7 @@ func validate(s Schema, names map[string]int, ns string) error {
 				return fmt.Errorf("union directly inside a union")
 			}
 			key := b.Kind
-			if b.Kind == "record" || b.Kind == "enum" || b.Kind == "fixed" {
+			if (b.Kind == "record" || b.Kind == "enum" || b.Kind == "fixed") && b.Name != "" {
 				key = b.Kind + ":" + FullName(b, ns)
 			}
 			if seen[key] {
